@@ -99,7 +99,7 @@ let term_of_subs (s : subs option) : term =
     mk "Subs" ""
       (List.map (fun (p, v) ->
            Node ({ lk = to_coq "Bind"; ld = p },
-                 [ (match v with VTerm t -> t | VIdentity -> mk "Id" "" []) ])) s)
+                 [ (match v with VType t -> t | VExpr t -> t | VIdentity -> mk "Id" "" []) ])) s)
 
 let subs_of_term (t : term) : subs option =
   match t with
@@ -107,7 +107,8 @@ let subs_of_term (t : term) : subs option =
     Some (List.map (fun k ->
         match k with
         | Node (lb, [ Node (lv, kv) ]) ->
-          (lb.ld, if of_coq lv.lk = "Id" then VIdentity else VTerm (Node (lv, kv)))
+          (lb.ld, if of_coq lv.lk = "Id" then VIdentity
+                  else if (of_coq lv.lk).[0] = 'E' then VExpr (Node (lv, kv)) else VType (Node (lv, kv)))
         | _ -> raise (Parse_error "bad binding")) ks)
   | _ -> None
 
